@@ -49,6 +49,9 @@ func runStream(e *simcore.Env, tp *simcore.Tape) {
 		}
 		flush := []string{"1s", "5s"}[tp.Choose(2)]
 		flags := []string{"--stream-flush-timeout=" + flush, fmt.Sprintf("--stream-max-merge-parts=%d", tp.Range(2, 6))}
+		qpFlags, qpTag := simnode.QueryPath(tp.Choose, "stream")
+		flags = append(flags, qpFlags...)
+		_ = qpTag
 		m := wl.NewStreamModel(base)
 		m.Tolerate = func(string) bool { return true }
 		// the history (identical for both twins)
@@ -195,7 +198,7 @@ func runStream(e *simcore.Env, tp *simcore.Tape) {
 					} else if len(got) > len(want) {
 						cls = "non-matching-row-returned"
 					}
-					if failOrTolerate(e, "stream", cls+twinTag(twin), facets(qq.c, spec, sameTs, rowTags), "twin %d (%s), criteria %s over [%d,%d]: predicate selects %d rows %s, query returned %d rows %s\n%s\nhistory: %s",
+					if failOrTolerate(e, "stream", cls+twinTag(twin)+":"+qpTag, facets(qq.c, spec, sameTs, rowTags), "twin %d (%s), criteria %s over [%d,%d]: predicate selects %d rows %s, query returned %d rows %s\n%s\nhistory: %s",
 						twin, twinName(twin), qq.c, qq.lo, qq.hi, len(want), clip(ws), len(got), clip(gs), diffRowsS(m, want, got), histS) {
 						n.Stop()
 						return
@@ -390,6 +393,9 @@ func runMeasure(e *simcore.Env, tp *simcore.Tape) {
 		}
 		flush := []string{"1s", "5s"}[tp.Choose(2)]
 		flags := []string{"--measure-flush-timeout=" + flush, fmt.Sprintf("--measure-max-merge-parts=%d", tp.Range(2, 6))}
+		qpFlags, qpTag := simnode.QueryPath(tp.Choose, "measure")
+		flags = append(flags, qpFlags...)
+		_ = qpTag
 		m := wl.NewMeasureModel(base)
 		m.Tolerate = func(string) bool { return true }
 		type mstep struct {
@@ -526,7 +532,7 @@ func runMeasure(e *simcore.Env, tp *simcore.Tape) {
 							}
 						}
 					}
-					if failOrTolerate(e, "measure", cls+twinTag(twin), facets(qq.c, spec, false, rowTags), "twin %d (%s), criteria %s over [%d,%d]: predicate selects %d rows %s, query returned %d rows %s%s",
+					if failOrTolerate(e, "measure", cls+twinTag(twin)+":"+qpTag, facets(qq.c, spec, false, rowTags), "twin %d (%s), criteria %s over [%d,%d]: predicate selects %d rows %s, query returned %d rows %s%s",
 						twin, twinName(twin), qq.c, qq.lo, qq.hi, len(want), clip(ws), len(got), clip(gs), rowsS) {
 						n.Stop()
 						return
